@@ -70,14 +70,16 @@ func (t *Txn) Commit() error {
 
 	// TODO: support txn crush recovery (txnEnt and txnFin)
 
+	entries := make([]types.Entry, 0, len(t.pendingWrites))
 	for _, v := range t.pendingWrites {
-		t.db.rawset(types.Entry{
+		entries = append(entries, types.Entry{
 			Key:       types.KeyWithTs(v.Key, commitTs),
 			Value:     v.Value,
 			Tombstone: v.Tombstone,
 			Version:   int64(commitTs),
 		})
 	}
+	t.db.rawset(entries...)
 
 	orc.doneCommit(commitTs)
 
